@@ -36,12 +36,12 @@ ChildAtoms == {ChText(<<"a">>), ChText(<<"sp">>), ChText(<<"lf", "sp">>), ChExpr
                ChSpread(Ident("xs0", FALSE, Arr(<<>>))),
                ChSpread(ArrLit(<<X2, Lit(Str(<<113>>))>>)), ChSpread(ArrLit(<<>>)),       \* {...[x2, "q"]}, {...[]}
                ChElem(B), ChElem(Elem(TagFrag, <<>>, <<ChExpr(X2)>>))}
-Hosts == {TagHtml("div"), TagFragmentName, TagFrag, TagKeepAlive, TagCustom("i-foo")}
+Hosts == {TagHtml("div"), TagFragmentName, TagFrag, TagKeepAlive, TagCustom("i-foo"), TagCustom("ION-y")}    \* ION-y: a custom element that is not lower-case
 
 SeqCases ==
   {[kind |-> "seq", host |-> h, children |-> cs] : h \in Hosts, cs \in SeqsUpTo(ChildAtoms, MaxChildren)}
 
-Opts == [DefaultOpts EXCEPT !.patterns = <<"^i-">>]
+Opts == [DefaultOpts EXCEPT !.patterns = <<"^i-", "(?i)^ion-">>]
 
 CaseSeq ==
   LET raw == SetToSeq(TextCases \cup SeqCases) IN
